@@ -59,6 +59,9 @@ type EncSpec struct {
 	ToKey     string `json:"to_key,omitempty"`     // recipient key; "" = KS
 	Fill      string `json:"fill,omitempty"`       // CBC padding fill: "" zero; "pkcs7"; "ff"
 	Salt      string `json:"salt,omitempty"`       // varies the (deterministic) content key and IV
+	// SessionKey, when set, names the content key: elements encrypted with the same name share
+	// one session key (the IV still follows the plaintext)
+	SessionKey string `json:"session_key,omitempty"`
 }
 
 type ctrReader struct {
@@ -253,6 +256,9 @@ func EncryptPlaintext(plaintext []byte, e EncSpec) *etree.Element {
 	}
 	seed := append([]byte(e.Salt+"|"+dataAlg+"|"), plaintext...)
 	sym := derive("key", seed, KeyLen(dataAlg))
+	if e.SessionKey != "" {
+		sym = derive("key", []byte("session|"+e.SessionKey+"|"+dataAlg), KeyLen(dataAlg))
+	}
 	iv := derive("iv", seed, 16)
 	return EncryptedAssertionEl(e, sym, EncryptData(dataAlg, sym, iv, plaintext, e.Fill))
 }
